@@ -64,6 +64,22 @@ class Mon:
                 if orig is not None and prm.key in orig.parameters:
                     explicit = orig.parameters[prm.key].alias
                 prm.kwname = explicit or camel(prm.pyname)
+        # enumeration order of the overloads of one layer: the real set order, or forced (ascending / descending by
+        # payload name) so that every candidate of a multi-overload name gets to be tried first
+        from yaql.language import contexts as yctx
+        self.order = None
+        self.patches = hooks.Patches()
+        orig_gf = yctx.Context.get_functions
+        mon = self
+
+        def get_functions(ctx_self, name, predicate=None, use_convention=False):
+            fds, excl = orig_gf(ctx_self, name, predicate, use_convention)
+            if mon.order is None or len(fds) < 2:
+                return fds, excl
+            ordered = sorted(fds, key=lambda fd: (getattr(fd.payload, '__module__', ''), getattr(fd.payload, '__qualname__', '')),
+                             reverse=bool(mon.order))
+            return ordered, excl
+        self.patches.set(yctx.Context, 'get_functions', get_functions)
         self.reach = hooks.Reach()
         self.reach.watch(yspecs.FunctionDefinition.map_args, 'map_args')
         self.reach.watch(yspecs.FunctionDefinition.get_delegate, 'get_delegate')
@@ -80,6 +96,7 @@ class Mon:
                 del self.reach.counts[k]
         self.reach.flush(self.rec)
         self.reach.stop()
+        self.patches.restore()
 
     def payload_calls(self):
         return sum(v for k, v in self.reach.counts.items() if k.startswith('payload.'))
@@ -328,6 +345,16 @@ def check_group(mon, o, states, extra, rec):
             out = mon.run(text, vars_)
             reached = mon.payload_calls() > before
             results.append((labels, form, text, vars_, out, reached))
+            if not o.single_name and ('keyword' in labels or 'skipped-slot' in labels):
+                # the same spelling with the overloads of the name enumerated in either forced order
+                for order in (0, 1):
+                    mon.order = order
+                    try:
+                        out2 = mon.run(text, vars_)
+                    finally:
+                        mon.order = None
+                    rec.count('spelling.forced-enumeration-order')
+                    results.append((labels + ['enumeration-%s' % ('asc' if order == 0 else 'desc')], form, text, vars_, out2, reached))
     if not results:
         return
     rec.count('groups')
